@@ -50,3 +50,24 @@ fn argstack() {
     st.clear();
     assert!(st.len() == 0 && st.pop_all().len() == 0);
 }
+
+//@ harness number_encodings kind=complete fns=parse_int1,parse_int2,parse_int3
+#[kani::proof]
+fn number_encodings() {
+    // Type 2 charstring number encoding (TN#5177 Table 3): 32..246 -> b0-139; 247..250 -> (b0-247)*256+b1+108; 251..254 -> -(b0-251)*256-b1-108
+    let op: u8 = kani::any();
+    let b1: u8 = kani::any();
+    let buf = [b1];
+    let mut ctxt = ReadScope::new(&buf).ctxt();
+    if op >= 32 && op <= 246 {
+        let v: f32 = parse_int1(op).unwrap();
+        assert!(v == (op as i32 - 139) as f32 && v >= -107.0 && v <= 107.0);
+    } else if op >= 247 && op <= 250 {
+        let v: f32 = parse_int2(op, &mut ctxt).unwrap();
+        assert!(v == ((op as i32 - 247) * 256 + b1 as i32 + 108) as f32 && v >= 108.0 && v <= 1131.0);
+        assert!(!ctxt.bytes_available(), "consumes exactly one more byte");
+    } else if op >= 251 && op <= 254 {
+        let v: f32 = parse_int3(op, &mut ctxt).unwrap();
+        assert!(v == (-(op as i32 - 251) * 256 - b1 as i32 - 108) as f32 && v <= -108.0 && v >= -1131.0);
+    }
+}
